@@ -20,7 +20,7 @@ from vlib.runner import HarnessError
 ID = "C03"
 TITLE = "Deserialization is total, pure and crash-free on arbitrary input"
 RULE = ("Hypothesis draws a type program (including the types converted by std_types: UUID, date, datetime, time, Decimal, bytes, "
-        "Path, IPv4Address, and integer / float multipleOf), an option set (additional_properties, fall_back_on_default, aliaser, no_copy, "
+        "Path, IPv4Address, a user type with two catching deserializers, and integer / float multipleOf), an option set (additional_properties, fall_back_on_default, aliaser, no_copy, "
         "coerce in {off, True, custom coercer returning wrong-typed values / raising}) and 4-10 Python data per type: valid "
         "data with 1-2 hostile atoms planted (nan, inf, -0.0, 10**400, bytes, tuple, set, str/int/float/dict/list subclasses, "
         "dicts with int/None/tuple/bytes/mixed keys, unhashable / hostile-__eq__ objects, ...), mutants, coercion-bait strings, "
@@ -44,7 +44,7 @@ LEVEL_NOTE = ("Trusted: the snapshot function, the list of hostile atoms (vlib/h
 
 BAIT = ["maybe", "1.5", "", " 1", "1e400", "nan", "inf", "-inf", "0x1", "TRUE", "Yes", "off", "2", "1_0", "٣", "١٢",
         # near-misses of the std_types images (base64 padding, dates, UUIDs, addresses, decimals)
-        "abc", "YWJ", "Y", "2020-13-45", "2020-01-02T25:00:00", "99:99", "12345678", "1.2.3.4.5", "256.1.1.1", "1e", "a\x00b"]
+        "abc", "YWJ", "Y", "2020-13-45", "2020-01-02T25:00:00", "99:99", "12345678", "1.2.3.4.5", "256.1.1.1", "1e", "a\x00b", "1.2.3", "a.b", "1."]
 
 REPO_PREFIX = os.path.realpath(os.path.dirname(apischema.__file__))
 
@@ -113,7 +113,7 @@ def data_fn(draw, prog, t, opts):
 
 @st.composite
 def strategy_(draw, tier):
-    cfg = {"max_depth": 3 if tier == "quick" else 4, "std": True, "float_mult_of": True, "leaf_validators": True}
+    cfg = {"max_depth": 3 if tier == "quick" else 4, "std": True, "std_multi": True, "float_mult_of": True, "leaf_validators": True}
     case = draw(tdcase.td_cases(cfg, n_data=(4, 10), data_fn=data_fn))
     case["opts"]["coerce"] = pick(draw, [False, False, True, True, "weird", "unhashable"])
     case["opts"]["no_copy"] = draw(st.booleans())
